@@ -216,7 +216,12 @@ def chk_cli(si, testnet, account, interval, to_file):
         argv += ["--password", src["password"]]
     res = cli.run_inprocess(argv)
     if res["status"] != 0:
-        return [V(P + ":cli:refused", "argv %r exited %d: %s" % (argv, res["status"], res["stderr"][-200:]))]
+        # a refused run shows nothing - which leaks nothing. Whether this vector OUGHT to be served is C20's question; here only:
+        # whatever a refused run printed or wrote must be free of secrets too
+        w0 = api_wallet(src, src["xk"][1] if "xk" in src else testnet)
+        st0, full0 = attempt(w0.generate, account if account is not None else 0, (0, 1))
+        text = res["stdout"] + "".join(res["files"].values())
+        return audit_text(text, full0, src, "cli-refused-run") if st0 == "ok" and text.strip() else []
     text = list(res["files"].values())[0] if to_file and res["files"] else res["stdout"]
     route = "cli-file" if to_file else "cli-stdout"
     try:
